@@ -562,6 +562,7 @@ def e2e_case(e, mode, top, report):
 
         def want_fn(stack):
             return pred_fn(stack) and int_fn(stack)
+    call = f"bound({show(e)}, loader(int, Mark))" if mode == "bound" else f"{mode}({show(e)}, Mark)"
     root = (("T", top, None),)
     direction = "O" if mode == "dumper" else "I"
     visited = list(ref_pred.walk_stacks(top, direction))
@@ -581,7 +582,7 @@ def e2e_case(e, mode, top, report):
     except Exception as exc:  # noqa: BLE001
         report.case(("e2e", repr(e), mode, top))
         report.violation({"check": "C10.e2e", "form": frm, "problem": f"{mode}: raised {type(exc).__name__}"},
-                         f"{mode}({show(e)}, Mark) on {top}: {type(exc).__name__}: {exc}"[:300], case)
+                         f"{call} on {top}: {type(exc).__name__}: {exc}"[:300], case)
         return
     marked_top = want_fn(root)
     report.case(("e2e", repr(e), mode, top), nontrivial=bool(hits) and not marked_top,
@@ -592,7 +593,7 @@ def e2e_case(e, mode, top, report):
     if repr(got) != repr(want) or got != want:
         report.violation(
             {"check": "C10.e2e", "form": frm, "problem": f"{mode}: marker applied at other locations than the predicate matches"},
-            f"{mode}({show(e)}, Mark) on {top}: got {got!r}, the documented meaning of the predicate gives {want!r}"[:600], case)
+            f"{call} on {top}: got {got!r}, the documented meaning of the predicate gives {want!r}"[:600], case)
 
 
 def shard_e2e(args):
